@@ -72,15 +72,15 @@ theorem separate_rules_exact (rs : List Text) (h : ∀ r ∈ rs, OneRule r) : se
   separateRules_concat rs h
 
 /-- the text handed to the separation -/
-theorem join_lines_exact (lines : List Text) (h : ∀ l ∈ lines, checkLastChar (stripComments l) = true) :
+theorem join_lines_exact (lines : List Text) (h : ∀ l ∈ lines, checkLastChar (stripComments l) = true ∧ LineClosed l) :
     joinLines lines [] = .ok ((lines.map lineText).flatten) := by
   simpa using joinLines_spec lines [] h
 
 /-- a line that ends in the middle of a word rejects the whole file -/
-theorem bad_line_rejected (pr : Text → Res Rule) (file : Text)
+theorem bad_line_rejected (pr : Text → Res Rule) (file : Text) (hcl : ∀ l ∈ splitLines file, LineClosed l)
     (h : ∃ l ∈ splitLines file, checkLastChar (stripComments l) = false) : loadKB pr file = .fail := by
   unfold loadKB readRules
-  rw [joinLines_reject _ _ h]; rfl
+  rw [joinLines_reject _ _ hcl h]; rfl
 
 /-- what the stripped pieces of a rule contribute once joined -/
 def joinPieces (ps : List Text) : Text :=
@@ -108,6 +108,13 @@ theorem strip_comments_exact {p indent trail comment : Text} (hp : CleanPiece p)
     stripComments (indent ++ p ++ trail ++ comment) = p :=
   stripComments_line hp hi ht hc
 
+/-- ... and leaves no parenthesis, bracket or quote open for the next line (since repair D26 the reader carries
+    the depths from line to line, so that a list or a complex term can continue on the next line) -/
+theorem clean_line_closed {p indent trail comment : Text} (hp : CleanPiece p)
+    (hi : ∀ c ∈ indent, isWs c = true) (ht : ∀ c ∈ trail, isWs c = true) (hc : IsComment comment) :
+    LineClosed (indent ++ p ++ trail ++ comment) :=
+  line_closed hp hi ht hc
+
 /-- what such a line contributes to the joined text: the piece, and one blank unless it ends the rule -/
 theorem line_of_piece {p indent trail comment : Text} (hp : CleanPiece p)
     (hi : ∀ c ∈ indent, isWs c = true) (ht : ∀ c ∈ trail, isWs c = true) (hc : IsComment comment) :
@@ -121,7 +128,8 @@ theorem comment_line_ignored {indent comment : Text} (hi : ∀ c ∈ indent, isW
     (hc : (∃ r, comment = '#' :: r) ∨ (∃ r, comment = '%' :: r)) : lineText (indent ++ comment) = [] := by
   have s1 := commentStart_ws indent 0 {} hi
   have hstrip : stripComments (indent ++ comment) = [] := by
-    unfold stripComments
+    unfold stripComments stripCommentsIn
+    simp only
     rw [commentStart_append _ _ _ _ s1.1]
     rcases hc with ⟨r, rfl⟩ | ⟨r, rfl⟩
     · simp only [commentStart, s1.2.1, s1.2.2.1, s1.2.2.2.2, show (('#' : Char) == '"') = false from by decide, show (('#' : Char) == '(') = false from by decide, show (('#' : Char) == '[') = false from by decide,
@@ -148,7 +156,7 @@ theorem blank_line_ignored (l : Text) (h : stripComments l = []) : lineText l = 
     joined text is their concatenation), every rule text is read as one rule, and no line ends
     badly, then loading the file gives exactly `parse_rule` of each rule text, in order. -/
 theorem C21 (pr : Text → Res Rule) (file : Text) (rs : List Text)
-    (hlines : ∀ l ∈ splitLines file, checkLastChar (stripComments l) = true)
+    (hlines : ∀ l ∈ splitLines file, checkLastChar (stripComments l) = true ∧ LineClosed l)
     (hjoin : ((splitLines file).map lineText).flatten = rs.flatten)
     (hrs : ∀ r ∈ rs, OneRule r) : loadKB pr file = parseAll pr rs := by
   unfold loadKB readRules
@@ -164,6 +172,10 @@ example : OneRule "f($X) :- $X = 1.5, g([a.b], \"x.y\").".toList :=
 
 example : CleanPiece "g($X) :- f($X, [a/b, #]),".toList :=
   ⟨by decide, by intro a h; simp at h; subst h; decide, by intro a h; simp at h; subst h; decide, by decide +kernel, by decide +kernel⟩
+
+-- a list that continues over three lines, with comment characters inside it: nothing is lost (repair D26)
+example : readRules ("c($C) :- $C = [a, #b,\n   %dev, x//y,\n  z].\n").toList
+    = .ok ["c($C) :- $C = [a, #b, %dev, x//y, z].".toList] := by decide +kernel
 
 example : readRules ("# facts\nf(1.5).  % one\n\ng($X) :- f($X),\n    // note\n    $X =\n  2.\n").toList
     = .ok ["f(1.5).".toList, "g($X) :- f($X), $X = 2.".toList] := by decide +kernel
